@@ -498,10 +498,16 @@ def _traversal(ctx: Ctx, rep: Report, f: Func) -> None:  # noqa: C901
             defs.setdefault(n.target.id, []).append(n.value)
     bsrc = src(base)
     bdef = defs.get(bsrc, [None])[0] if isinstance(base, ast.Name) else base
+    # `items = kwargs.get("items")` / `if items is None: items = self._items`: the own list is one of the sources
+    own_def = next((d_ for d_ in (defs.get(bsrc, []) if isinstance(base, ast.Name) else [base]) if "self._items" in src(d_) or "self.items" in src(d_)), None)
+    if own_def is not None and bdef is not None and not ("self._items" in src(bdef) or "self.items" in src(bdef)) and ("kwargs" in src(bdef) or any(p_ in src(bdef) for p_ in f.params[1:])):
+        bdef = own_def
     okbase = bdef is not None and ("self._items" in src(bdef) or "self.items" in src(bdef)) and not any(w in src(it) for w in ("reversed", "sorted", "[::-1]"))
     # the list may not be re-bound to a filtered / reordered version of itself before the loop
     if isinstance(base, ast.Name):
         for extra in defs.get(bsrc, [])[1:]:
+            if extra is own_def:
+                continue
             if _drops_only_empty_groups(extra, bsrc):
                 continue  # a nested group without lines renders nothing: leaving it out leaves every rendered line in
             if isinstance(extra, (ast.ListComp, ast.GeneratorExp)) and any(g.ifs for g in extra.generators) or any(w in src(extra) for w in ("sorted(", "reversed(", "[::-1]", "filter(")) or isinstance(extra, ast.Subscript):
